@@ -3,7 +3,7 @@
    changes the generated term and breaks one of these proofs. *)
 From Coq Require Import ZArith List Bool Lia String.
 Import ListNotations.
-Require Import Grist.Lib.PyFloat Grist.Model.Values Grist.Model.Reload Grist.Model.ReloadPrims.
+Require Import Grist.Lib.PyFloat Grist.Model.Values Grist.Model.Reload Grist.Model.ReloadPrims Grist.Proofs.Values_enc_proofs.
 Require Import GristGen.Reload_gen.
 Open Scope Z_scope.
 
@@ -30,23 +30,28 @@ Lemma bridge_ChoiceListColumn_set : forall v, gen_ChoiceListColumn_set orc v = O
 Proof.
   intros v. unfold gen_ChoiceListColumn_set, choicelist_set.
   destruct v; try reflexivity.
-  - (* str *) cbn. destruct (starts_with (Str "[") s); [|reflexivity]. cbn.
-    destruct (o_json_loads orc s) as [j|]; [|reflexivity]. cbn. unfold p_tuple. destruct (py_iter orc j); reflexivity.
-  - (* list *) reflexivity.
+  cbn. destruct (starts_with (Str "[") s); [|reflexivity]. cbn.
+  destruct (o_json_loads orc s) as [j|]; [|reflexivity]. cbn. unfold p_tuple. destruct (py_iter orc j); reflexivity.
+Qed.
+
+Lemma p_gt_int_integer : forall s f n, f_trunc f = TrOk n -> f_eq_Z f n = true -> p_gt_int (PFloat s f) 0 = Ok (0 <? n).
+Proof.
+  intros s f n Et Eq. destruct f as [|neg|neg|m e]; try discriminate Et.
+  - cbn in Et. injection Et as <-. reflexivity.
+  - cbn [p_gt_int]. rewrite Et, Eq. reflexivity.
 Qed.
 
 Lemma bridge_ReferenceColumn_clean_up_value : forall v, gen_ReferenceColumn_clean_up_value v = Ok (ref_cleanup v).
 Proof.
   intros v. unfold gen_ReferenceColumn_clean_up_value, ref_cleanup.
   destruct v; try reflexivity; try (destruct k; reflexivity). destruct sub; [reflexivity|].
-  destruct f as [|neg|neg|m e]; try reflexivity.
-  - (* zero *) cbn. reflexivity.
-  - cbn [p_type pytype_eqb ty_float Bool.eqb p_and bind p_is_integer].
-    destruct (f_trunc (FNum m e)) as [n| |] eqn:Et; try reflexivity.
-    destruct (f_eq_Z (FNum m e) n) eqn:Eq; [|reflexivity].
-    cbn [bind p_gt_int p_int py_int_of_float]. rewrite Et, Eq. cbn [bind p_and].
-    destruct (0 <? n); [|reflexivity]. cbn [bind p_is_int_short andb].
-    destruct (is_int_short n); reflexivity.
+  cbn [p_type pytype_eqb ty_float Bool.eqb p_and bind p_is_integer].
+  destruct (f_trunc f) as [n| |] eqn:Et; try reflexivity.
+  destruct (f_eq_Z f n) eqn:Eq; [|reflexivity].
+  cbn [bind]. rewrite (p_gt_int_integer false f n Et Eq).
+  unfold p_int, py_int_of_float. rewrite Et. cbn [bind p_and].
+  destruct (0 <? n); [|reflexivity]. cbn [bind p_is_int_short andb].
+  destruct (is_int_short n); reflexivity.
 Qed.
 
 Lemma pos_short_pointwise : forall x,
@@ -73,9 +78,232 @@ Proof.
   - cbn [bind p_json_loads]. destruct (o_json_loads orc s) as [j|]; [|reflexivity].
     cbn [bind]. destruct j; try reflexivity.
     cbn [p_isinstance p_not bind negb p_all py_iter].
-    rewrite (all_result_forallb _ is_pos_short_int l pos_short_pointwise). cbn [bind].
+    rewrite (all_result_forallb _ is_pos_short_int l) by (intros x; exact (pos_short_pointwise x)). cbn [bind].
     destruct (forallb is_pos_short_int l); reflexivity.
   - cbn [bind p_recordlist_from_repr]. destruct (reclist_from_repr orc s); reflexivity.
+Qed.
+
+(* ---- main.py ------------------------------------------------------------------------------------------ *)
+
+Lemma bridge_decode_db_value : forall unmarshal fuel x,
+  gen_decode_db_value (decode_f orc fuel) (loads_of unmarshal) x = Ok (fst (from_db orc unmarshal fuel x)).
+Proof.
+  intros u fuel x. unfold gen_decode_db_value, from_db.
+  destruct x; try reflexivity; try (destruct k; reflexivity). destruct sub; reflexivity.
+Qed.
+
+(* ---- objtypes.py: strict_equal, equal_encoding ----------------------------------------------------------- *)
+
+Lemma pytype_same_type : forall a b, pytype_eqb (p_type a) (p_type b) = same_type a b.
+Proof.
+  intros a b. destruct a; destruct b; try reflexivity;
+    try (destruct k; reflexivity); try (destruct k; destruct k0; reflexivity).
+Qed.
+
+Lemma bridge_strict_equal : forall a b, gen_strict_equal orc a b = Ok (strict_equal orc a b).
+Proof.
+  intros a b. unfold gen_strict_equal, strict_equal, p_eq. rewrite pytype_same_type.
+  destruct (same_type a b); reflexivity.
+Qed.
+
+Lemma bridge_equal_encoding : forall fuel a b,
+  gen_equal_encoding orc (encode_f orc fuel) a b = Ok (equal_encoding orc fuel a b).
+Proof.
+  intros fuel a b. unfold gen_equal_encoding, equal_encoding, p_eq.
+  destruct a; destruct b; try reflexivity; try (destruct k; reflexivity);
+    try (destruct b0; destruct b; reflexivity);
+    try (cbn; destruct (f_eq f f0); [reflexivity|]; cbn; destruct (f_is_nan f); reflexivity).
+Qed.
+
+(* ---- objtypes.py: safe_shift, RaisedException.decode_args ---------------------------------------------------- *)
+
+Lemma bridge_safe_shift : forall k l d,
+  gen_safe_shift orc (PList k l) d = Ok (fst (shift_or d l), PList k (snd (shift_or d l))).
+Proof.
+  intros k l d. unfold gen_safe_shift. destruct l as [|x t]; [reflexivity|]. destruct x; reflexivity.
+Qed.
+
+(* what decode_args builds from ['E', a, rest...]: the fields _name, _message, details, user_input (NO_INPUT when there is
+   none; decoded by `dec` = decode_object) and error (the stand-in exception: (class named a, constructor arguments)) *)
+Definition exc_tuple (dec : value -> value) (a : value) (rest : list value) : result value :=
+  let '(msg, a2) := shift_or PNone rest in
+  let '(details, a3) := shift_or PNone a2 in
+  let '(ui, _) := shift_or (PDict []) a3 in
+  match ui with
+  | PDict l =>
+      Ok (PTuple [a; msg; details;
+                  dec (match dict_get (Str "u") l with Some u => u | None => NO_INPUT end);
+                  if p_isinstance a CStr then PTuple [a; PList LPlain (if p_is_none msg then [] else [msg])] else PNone])
+  | _ => Raise E_Attribute
+  end.
+
+Lemma bridge_decode_args : forall dec a rest,
+  gen_decode_args orc dec (PTuple (a :: rest)) = exc_tuple dec a rest.
+Proof.
+  intros dec a rest. unfold gen_decode_args, exc_tuple.
+  cbn [p_list py_iter bind p_truthy py_truthy].
+  rewrite bridge_safe_shift. cbn [bind fst snd].
+  assert (Ha : fst (shift_or PNone (a :: rest)) = a /\ snd (shift_or PNone (a :: rest)) = rest) by (destruct a; split; reflexivity).
+  destruct Ha as [Ha1 Ha2]. rewrite Ha1, Ha2.
+  rewrite bridge_safe_shift. cbn [bind fst snd]. destruct (shift_or PNone rest) as [msg a2]. cbn [fst snd].
+  rewrite bridge_safe_shift. cbn [bind fst snd]. destruct (shift_or PNone a2) as [details a3]. cbn [fst snd].
+  rewrite bridge_safe_shift. cbn [bind fst snd]. destruct (shift_or (PDict []) a3) as [ui a4]. cbn [fst snd].
+  destruct ui; try reflexivity.
+  cbn [p_dict_get bind]. unfold p_new_exc_class, p_instantiate.
+  destruct (p_isinstance a CStr); [|reflexivity]. cbn [bind]. destruct (p_is_none msg); reflexivity.
+Qed.
+
+(* ---- decode_args inside decode_object ------------------------------------------------------------------------ *)
+
+Definition not_opaque (v : value) : bool := match v with POpaque _ => false | _ => true end.
+
+Lemma ts_to_dt_not_opaque : forall ts z w, ts_to_dt orc ts z = Ok w -> not_opaque w = true.
+Proof.
+  intros ts z w. unfold ts_to_dt. destruct (td_of_seconds orc ts) as [u|]; cbn [bind]; [|discriminate].
+  destruct (negb (in_dt_range u)); [discriminate|].
+  destruct (negb (in_dt_range (u + o_ts_offset orc z u))); [discriminate|].
+  intros H; injection H as <-. reflexivity.
+Qed.
+
+Lemma ts_to_date_not_opaque : forall ts w, ts_to_date orc ts = Ok w -> not_opaque w = true.
+Proof.
+  intros ts w. unfold ts_to_date. destruct (td_of_seconds orc ts) as [u|]; cbn [bind]; [|discriminate].
+  match goal with |- context [if ?b then _ else _] => destruct b end; [|discriminate].
+  intros H; injection H as <-. reflexivity.
+Qed.
+
+(* decode_object of a list or tuple never yields a foreign object *)
+Lemma decode_seq_not_opaque : forall n k items,
+  not_opaque (decode_f orc n (PList k items)) = true /\ not_opaque (decode_f orc n (PTuple items)) = true.
+Proof.
+  intros n k items.
+  assert (H : forall v, v = PList k items \/ v = PTuple items -> not_opaque (decode_f orc n v) = true).
+  { intros v [-> | ->]; destruct items as [|code args]; destruct n; cbn [decode_f]; try reflexivity.
+    all: repeat match goal with
+         | |- context [if code_is ?c ?x then _ else _] => destruct (code_is c x)
+         end.
+    all: repeat match goal with
+         | |- context [nth_arg ?i ?a] => destruct (nth_arg i a); cbn [bind]
+         | |- context [o_zone_known orc ?z] => destruct (o_zone_known orc z) as [[|]|]; cbn [bind negb]
+         end.
+    all: try reflexivity.
+    all: repeat match goal with
+         | |- context [ts_to_dt orc ?a ?b] =>
+             let E := fresh "E" in destruct (ts_to_dt orc a b) eqn:E; [exact (ts_to_dt_not_opaque _ _ _ E)|reflexivity]
+         | |- context [ts_to_date orc ?a] =>
+             let E := fresh "E" in destruct (ts_to_date orc a) eqn:E; [exact (ts_to_date_not_opaque _ _ E)|reflexivity]
+         | |- context [match ?x with _ => _ end] =>
+             match type of x with
+             | value => destruct x
+             | list value => destruct x
+             | list (value * value) => destruct x
+             | option bool => destruct x
+             | bool => destruct x
+             | (value * list value)%type => destruct x
+             | option value => destruct x
+             end; try reflexivity
+         end. }
+  split; apply H; [left|right]; reflexivity.
+Qed.
+
+Lemma decode_not_no_input : forall n u, not_opaque u = true -> p_is_no_input (decode_f orc n u) = false.
+Proof.
+  intros n u Hu.
+  assert (H : not_opaque (decode_f orc n u) = true).
+  { destruct u; try (destruct n; exact Hu); try (destruct n; reflexivity).
+    - apply (decode_seq_not_opaque n k l).
+    - apply (decode_seq_not_opaque n LPlain l). }
+  destruct (decode_f orc n u); try reflexivity. discriminate H.
+Qed.
+
+Lemma marshalable_not_opaque : forall v, marshalableb v = true -> not_opaque v = true.
+Proof. intros v H. destruct v; try reflexivity. discriminate H. Qed.
+
+Lemma shift_or_marshalable : forall d l, marshalableb d = true -> forallb marshalableb l = true ->
+  marshalableb (fst (shift_or d l)) = true /\ forallb marshalableb (snd (shift_or d l)) = true.
+Proof.
+  intros d l Hd Hl. destruct l as [|x t]; [split; [exact Hd|reflexivity]|].
+  cbn [forallb] in Hl. apply andb_true_iff in Hl as [Hx Ht]. destruct x; cbn [shift_or fst snd]; split; assumption.
+Qed.
+
+Lemma dict_get_marshalable : forall key l u, marshalableb (PDict l) = true -> dict_get key l = Some u -> marshalableb u = true.
+Proof.
+  intros key l u. induction l as [|[k x] l IH]; [discriminate|].
+  cbn [marshalableb forallb]. intros H. apply andb_true_iff in H as [Hkx Hl].
+  destruct k; try discriminate Hkx. destruct sub; [discriminate Hkx|]. cbn [dict_get].
+  destruct (str_eqb s key); [intros E; injection E as <-; exact Hkx|]. apply IH. exact Hl.
+Qed.
+
+(* a decoded RaisedException, as the fields decode_args sets, and the description of its .error *)
+Definition err_of_tuple (r : result value) : value :=
+  match r with
+  | Ok (PTuple [name; msg; details; ui; _]) => PErr name msg details (if p_is_no_input ui then None else Some ui)
+  | Ok _ => PNone
+  | Raise e => raised e
+  end.
+
+Definition errdesc_of_tuple (r : result value) : option errdesc :=
+  match r with
+  | Ok (PTuple [_; _; _; _; PTuple [PStr _ nm; PList _ []]]) => Some (nm, Some [])
+  | Ok (PTuple [_; _; _; _; PTuple [PStr _ nm; PList _ [m]]]) => Some (nm, Some (or_default [] (py_str orc m)))
+  | Raise e => Some (e, None)            (* the exception decode_object caught: its text is the library's *)
+  | _ => None
+  end.
+
+(* The E branch of decode_object is the translated decode_args (dec = decode_object with the remaining stack), for
+   arguments that came out of marshal. *)
+Lemma decode_E_by_gen : forall n a rest, forallb marshalableb rest = true ->
+  decode_f orc (S n) (tag "E" (a :: rest)) = err_of_tuple (gen_decode_args orc (decode_f orc n) (PTuple (a :: rest))).
+Proof.
+  intros n a rest Hm. rewrite bridge_decode_args, decode_E_args. unfold exc_tuple.
+  destruct (shift_or_marshalable PNone rest eq_refl Hm) as [_ H2]. destruct (shift_or PNone rest) as [msg a2]. cbn [snd] in H2.
+  destruct (shift_or_marshalable PNone a2 eq_refl H2) as [_ H3]. destruct (shift_or PNone a2) as [details a3]. cbn [snd] in H3.
+  destruct (shift_or_marshalable (PDict []) a3 eq_refl H3) as [Hui _]. destruct (shift_or (PDict []) a3) as [ui a4]. cbn [fst] in Hui.
+  destruct ui; try reflexivity.
+  destruct (dict_get (Str "u") l) as [u|] eqn:Eu; cbn [err_of_tuple].
+  - rewrite decode_not_no_input; [reflexivity|]. apply marshalable_not_opaque. eapply dict_get_marshalable; eassumption.
+  - destruct n; reflexivity.
+Qed.
+
+(* ... and the .error the model gives a decoded error cell is the stand-in the translated decode_args builds *)
+Lemma decoded_err_by_gen : forall n a rest,
+  decoded_err orc (S n) (tag "E" (a :: rest)) = errdesc_of_tuple (gen_decode_args orc (decode_f orc n) (PTuple (a :: rest))).
+Proof.
+  intros n a rest. rewrite bridge_decode_args. unfold decoded_err. rewrite decode_E_args.
+  unfold exc_tuple, e_form_ok, tag, e_args_ok. rewrite shift_or_cons.
+  destruct (shift_or PNone rest) as [msg a2]. destruct (shift_or PNone a2) as [details a3].
+  destruct (shift_or (PDict []) a3) as [ui a4].
+  destruct ui; try reflexivity.
+  assert (Hc : code_is "E" (PStr false (Str "E")) = true) by reflexivity. rewrite Hc. cbn [andb].
+  assert (Hok : match dict_get (Str "u") l with Some _ => true | None => true end = true) by (destruct (dict_get (Str "u") l); reflexivity).
+  destruct (dict_get (Str "u") l) as [u|]; cbn [errdesc_of_tuple];
+    (destruct a; try reflexivity; cbn [p_isinstance]; unfold exc_text; destruct msg; reflexivity).
+Qed.
+
+(* ---- the load path and the change detection, as translated -------------------------------------------------------- *)
+
+Lemma bridge_col_set : forall T v, gen_col_set orc T v = col_set orc T v.
+Proof.
+  intros T v. unfold gen_col_set, gen_set_kind, col_set.
+  destruct T; try reflexivity;
+    first [ apply bridge_BoolColumn_set | apply bridge_NumericColumn_set | apply bridge_ChoiceListColumn_set
+          | apply bridge_ReferenceColumn_clean_up_value | apply bridge_ReferenceListColumn_clean_up_value ].
+Qed.
+
+Lemma bridge_reload : forall marshal unmarshal T fuel c,
+  code_reload orc marshal unmarshal T fuel c = reload orc marshal unmarshal T fuel c.
+Proof.
+  intros m u T fuel c. unfold code_reload, reload. rewrite bridge_decode_db_value. cbn [bind].
+  destruct (from_db orc u fuel (u (m (to_db m (encode_f orc fuel (fst c)))))) as [d err]. cbn [fst snd].
+  rewrite bridge_col_set. reflexivity.
+Qed.
+
+Lemma bridge_recompute_cell : forall previous new, code_recompute_cell orc previous new = Ok (recompute_cell orc previous new).
+Proof. intros p n. unfold code_recompute_cell, recompute_cell. rewrite bridge_strict_equal. reflexivity. Qed.
+
+Lemma bridge_flush_cell : forall fuel chg, code_flush_cell orc fuel chg = Ok (flush_cell orc fuel chg).
+Proof.
+  intros fuel [[b a]|]; [|reflexivity]. unfold code_flush_cell, flush_cell. rewrite bridge_equal_encoding. reflexivity.
 Qed.
 
 End Bridge.
